@@ -161,3 +161,24 @@ func verifEncryptedCookieRoundTrip(c *EncryptedServerCookie, q *EncryptedServerC
 	b := c.Encode()
 	return q.Decode(b)
 }
+
+// ---- NTS-KE record stream ----
+// The stream is arbitrary peer data. rtype(h) is the record type without the critical bit, critical(h) that bit;
+// lastreadof(RecordHdr{}) is the header most recently read from the stream. Record types 0..7 are recognised.
+//@ pred rtype(h) = (h.Type & 32767)
+//@ pred critical(h) = (h.Type >= 32768)
+
+// ReadData returns nil only at an End of Message record; a cookie record's body is read completely however the
+// transport segments the stream (lastreadn() == lastreadwant() for the byte-slice read of that record); every record it consumed without returning was neither an
+// error record nor an unrecognised record with the critical bit set (those end the exchange with an error), and
+// unrecognised non-critical records are skipped.
+//@ func ReadData
+//@   noframe
+//@   requires data != nil && reader != nil
+//@   loop 0 iterensures noerror: rtype(lastreadof(RecordHdr{})) != 2 && rtype(lastreadof(RecordHdr{})) != 0
+//@   loop 0 iterensures nocritical: !(critical(lastreadof(RecordHdr{})) && rtype(lastreadof(RecordHdr{})) > 7)
+//@   loop 0 iterensures keys: sameslice(data.C2sKey, prev(data.C2sKey)) && sameslice(data.S2cKey, prev(data.S2cKey))
+//@   loop 0 iterensures algo: data.Algo != prev(data.Algo) ==> rtype(lastreadof(RecordHdr{})) == 4
+//@   loop 0 iterensures pool: len(data.Cookie) != prev(len(data.Cookie)) ==> rtype(lastreadof(RecordHdr{})) == 5 && len(data.Cookie) == prev(len(data.Cookie))+1
+//@   loop 0 iterensures whole: rtype(lastreadof(RecordHdr{})) == 5 ==> lastreadn() == lastreadwant()
+//@   ensures eom: result == nil ==> rtype(lastreadof(RecordHdr{})) == 0
